@@ -182,9 +182,9 @@ SWEEP_OBLIGS = ["findEntryAndExitPoints:hit-to-miss", "findEntryAndExitPoints:mi
                 "intersects:hit-to-miss", "intersects:miss-to-hit"]
 
 
-def run_sweep(chk, binary, nboxes):
+def run_sweep(chk, binary):
     for ft, name in (("d", "double"), ("f", "float")):
-        rc, blocks = lib.sh([binary, "sweep", ft, str(chk.seed), str(nboxes)], timeout=900)
+        rc, blocks = lib.sh([binary, "sweep", ft, str(chk.seed), "thorough" if chk.thorough else "quick"], timeout=900)
         rc2, out = lib.sh([DRV, "sweep"], stdin=blocks, timeout=3600)
         stats, counts, flips = {}, {}, []
         for l in out.split("\n"):
@@ -279,7 +279,7 @@ def run(chk):
         off2 = [chk.rng.randint(-3, 3), chk.rng.randint(-3, 3), chk.rng.randint(-3, 3), chk.rng.randint(-1, 2)]
         run_lattice(chk, binary, THOROUGH_PAIRS, off2, "lattice-thorough")
     chk.exhaustive = True
-    run_sweep(chk, binary, 6 if chk.thorough else 4)
+    run_sweep(chk, binary)
     # samples: grazing an edge, flat box, axis-parallel ray, empty box
     for desc, vals in (("skew ray grazing the edge x=y=0..1 of the unit cube", "0 0 0 1 1 1 -1 -1 1/2 2 2 -1/4"),
                        ("flat box hit edge-on", "0 0 0 0 1 1 -1 1/2 1/2 1 0 0"),
